@@ -272,6 +272,69 @@ class RecordingStream(io.BytesIO):
         return super().seek(*a)
 
 
+class VirtualStream(io.RawIOBase):
+    """A read-only seekable stream of `size` bytes that exists only as a formula: the first len(head) bytes are `head`, every
+    later byte at absolute position p is (p * 7 + 13) % 251.  Logs (position, nbytes) of every read like RecordingStream."""
+
+    def __init__(self, head, size):
+        super().__init__()
+        self.head = bytes(head)
+        self.size = size
+        self.pos = 0
+        self.log = []
+
+    @staticmethod
+    def pattern(start, n):
+        return ((np.arange(start, start + n, dtype=np.uint64) * np.uint64(7) + np.uint64(13)) % np.uint64(251)).astype(np.uint8)
+
+    def content(self, start, n):
+        n = max(0, min(n, self.size - start))
+        if n == 0:
+            return b''
+        out = bytearray()
+        if start < len(self.head):
+            out += self.head[start:start + n]
+        rest = n - len(out)
+        if rest > 0:
+            out += self.pattern(start + len(out), rest).tobytes()
+        return bytes(out)
+
+    def readable(self):
+        return True
+
+    def seekable(self):
+        return True
+
+    def tell(self):
+        return self.pos
+
+    def seek(self, offset, whence=0):
+        self.pos = offset if whence == 0 else self.pos + offset if whence == 1 else self.size + offset
+        return self.pos
+
+    def read(self, n=-1):
+        if n is None or n < 0:
+            n = self.size - self.pos
+        if n > 1 << 28:
+            raise MemoryError('read of %d bytes from a virtual file' % n)
+        b = self.content(self.pos, n)
+        if b:
+            self.log.append((self.pos, len(b)))
+        self.pos += len(b)
+        return b
+
+    def readinto(self, buf):
+        mv = memoryview(buf).cast('B')
+        if len(mv) > 1 << 28:
+            raise MemoryError('read of %d bytes from a virtual file' % len(mv))
+        b = self.content(self.pos, len(mv))
+        mv[:len(b)] = b
+        if b:
+            self.log.append((self.pos, len(b)))
+        self.pos += len(b)
+        return len(b)
+
+
 def open_fds(under):
     """{fd: target} of this process's descriptors that point below directory `under`"""
     out = {}
